@@ -468,6 +468,56 @@ fn decoder(run: &mut Run, tier: Tier) {
     cases.retain(|c| !c.is_empty() && c.len() <= 128);
     let accs = meter::par_fold(cases.len(), th, Acc::default, |a, i| decoder_case(a, &cases[i]));
     merge(run, "C13", "decoder_shaped_weight_vectors_len_1_to_128", accs, false);
+
+    // FSE-compressed descriptions can name weights a direct description (4 bits) cannot: every weight value
+    // 0..=255 is a symbol of the weights' FSE table. Weight vectors containing one weight X in {12..=255} (valid
+    // FSE coding, invalid Huffman weights) at three positions, and the valid neighbours X <= 11 as control: the
+    // decoder must refuse X > 11 with an error - no panic, no shift overflow - and build the canonical table otherwise
+    let mut fcases: Vec<(Vec<u8>, Vec<i16>)> = vec![];
+    for x in (1..=20u16).chain([31, 32, 33, 34, 40, 63, 64, 65, 100, 127, 128, 200, 254, 255]) {
+        for shape in 0..3 {
+            let xw = x as u8;
+            let head: Vec<u8> = match shape {
+                0 => vec![1, 1, 2, xw],
+                1 => vec![xw, 2, 1, 1],
+                _ => vec![1, xw, 1, 2, 2, 1, 1, 1],
+            };
+            // distribution over weight values: log 6, every used value gets a share
+            let mut dist = vec![0i16; (x as usize).max(2) + 1];
+            dist[1] = 30;
+            dist[2] = 16;
+            dist[x as usize] += 18;
+            fcases.push((head, dist));
+        }
+    }
+    let accs = meter::par_fold(fcases.len(), th, Acc::default, |a, i| {
+        let (head, dist) = &fcases[i];
+        a.evals += 1;
+        let Some(desc) = huf::describe_fse(head, dist, 6) else {
+            a.extra[3] += 1; // not expressible with this table (counted)
+            return;
+        };
+        let rp = json!({"case": "decoder_fse_described", "weights": head});
+        let want = huf::complete(head);
+        let mut src = desc.clone();
+        src.extend_from_slice(&[0xEE; 2]);
+        let mut t = DecTable::new();
+        match (want, guarded(|| t.build_decoder(&src))) {
+            (_, Err(p)) => a.bad("decoder:fse_described:panic".into(), format!("build_decoder(FSE-described weights {head:?}) panicked: {p}"), rp),
+            (Some(w), Ok(Ok(n))) => {
+                a.nontrivial += 1;
+                let (mb, tab) = huf::decode_table(&w).unwrap();
+                if n as usize != desc.len() || t.max_num_bits != mb || t.verif_entries() != tab {
+                    a.bad("decoder:fse_described:table".into(), format!("FSE-described weights {head:?}: {n} bytes used of {}, max bits {} (canonical {mb}), table equal: {}", desc.len(), t.max_num_bits, t.verif_entries() == tab), rp);
+                }
+            }
+            (None, Ok(Err(_))) => a.nontrivial += 1,
+            (Some(_), Ok(Err(e))) => a.bad("decoder:fse_described:refused".into(), format!("build_decoder refused the valid FSE-described weights {head:?}: {e:?}"), rp),
+            (None, Ok(Ok(_))) => a.bad("decoder:fse_described:accepted".into(), format!("build_decoder accepted FSE-described weights {head:?}, which cannot form a complete code of depth <= 11 (max bits {})", t.max_num_bits), rp),
+        }
+    });
+    let x = merge(run, "C13", "decoder_fse_described_weights_incl_values_above_11", accs, false);
+    run.set("fse_described_weight_vectors_not_expressible", x[3]);
 }
 
 pub fn main(tier: Tier, replay: Option<Value>) -> i32 {
@@ -482,7 +532,7 @@ pub fn main(tier: Tier, replay: Option<Value>) -> i32 {
     // literal-only blocks (family shared with C16)
     crate::c16::table_reuse(&mut run, tier, "C13");
     run.set("exhaustive", false);
-    run.set("rule", "encoder: every number of used symbols 2..=256 x 5 placements x 8 rank orders (+ every rank permutation up to 7/8 symbols): complete prefix code, depth <= 11, monotone in frequency, description form, description parsed by the specification and by the crate's decoder into the same lengths / canonical table, one- and four-stream coding of strings of every length 1..=12 and 1021..=1031 and around 4096/16384 decoded by the specification, compress_literals output wrapped in a frame and decoded by the walker, libzstd and the crate; table reuse (treeless sections) for every ordered pair of alphabets that are subsets of 5/6 byte values x 9 frequency-profile pairs as three consecutive literal-only blocks. decoder: every direct weight vector of <= 6/7 weights over 0..=15 and shaped vectors of every length 1..=128: accept <=> the weights complete to a power of two with depth <= 11, table equal to the canonical one entry by entry. non-trivial = valid table / Huffman section actually produced");
+    run.set("rule", "encoder: every number of used symbols 2..=256 x 5 placements x 8 rank orders (+ every rank permutation up to 7/8 symbols): complete prefix code, depth <= 11, monotone in frequency, description form, description parsed by the specification and by the crate's decoder into the same lengths / canonical table, one- and four-stream coding of strings of every length 1..=12 and 1021..=1031 and around 4096/16384 decoded by the specification, compress_literals output wrapped in a frame and decoded by the walker, libzstd and the crate; table reuse (treeless sections) for every ordered pair of alphabets that are subsets of 5/6 byte values x 9 frequency-profile pairs as three consecutive literal-only blocks. decoder: FSE-described weight vectors containing weight values up to 255 (valid FSE coding, invalid Huffman weights above 11) must be refused without panicking; every direct weight vector of <= 6/7 weights over 0..=15 and shaped vectors of every length 1..=128: accept <=> the weights complete to a power of two with depth <= 11, table equal to the canonical one entry by entry. non-trivial = valid table / Huffman section actually produced");
     run.sample(json!({"case": "encoder", "histogram": [[0, 3], [3, 1], [6, 2], [9, 6], [12, 4], [15, 5]]}));
     run.sample(json!({"case": "decoder", "weights": [4, 3, 2, 0, 1]}));
     run.sample(json!({"case": "section", "histogram": "17 symbols, counts 1..=17", "len": 1027}));
